@@ -1,0 +1,54 @@
+//! Verification hook (compiled only with `--cfg rs_tftpd_verif`).
+//!
+//! A simulated, thread-local clock that shadows [`std::time::Instant`] inside
+//! `Worker::send_file`, so that a scripted [`crate::Socket`] decides exactly
+//! when a retransmission timeout elapses.
+
+use std::cell::Cell;
+use std::ops::Sub;
+use std::time::Duration;
+
+/// Start of simulated time (far enough from zero that subtracting a timeout never underflows).
+const BASE_NANOS: u128 = 1 << 80;
+
+thread_local! {
+    static NOW: Cell<u128> = const { Cell::new(BASE_NANOS) };
+}
+
+/// Simulated counterpart of [`std::time::Instant`].
+#[derive(Clone, Copy, Debug, PartialEq, Eq, PartialOrd, Ord)]
+pub struct Instant(u128);
+
+impl Instant {
+    /// Current simulated time of the calling thread.
+    pub fn now() -> Instant {
+        Instant(NOW.with(|n| n.get()))
+    }
+
+    /// Simulated time elapsed since this instant.
+    pub fn elapsed(&self) -> Duration {
+        let nanos = Instant::now().0.saturating_sub(self.0);
+        Duration::new(
+            (nanos / 1_000_000_000) as u64,
+            (nanos % 1_000_000_000) as u32,
+        )
+    }
+}
+
+impl Sub<Duration> for Instant {
+    type Output = Instant;
+
+    fn sub(self, rhs: Duration) -> Instant {
+        Instant(self.0 - rhs.as_nanos())
+    }
+}
+
+/// Advances the simulated clock of the calling thread.
+pub fn advance(by: Duration) {
+    NOW.with(|n| n.set(n.get() + by.as_nanos()));
+}
+
+/// Resets the simulated clock of the calling thread.
+pub fn reset() {
+    NOW.with(|n| n.set(BASE_NANOS));
+}
